@@ -6,6 +6,7 @@ import (
 	"fmt"
 	"os"
 	"path/filepath"
+	"strings"
 
 	"github.com/thomasjungblut/go-sstables/memstore"
 	"github.com/thomasjungblut/go-sstables/recordio"
@@ -28,6 +29,12 @@ type memCall struct {
 	Op string `json:"op"`
 	K  int    `json:"k"`
 	V  string `json:"v"`
+}
+
+type retainedVal struct {
+	live []byte // the slice a Get returned
+	copy []byte // what it held then
+	at   int    // index of that call
 }
 
 func init() { register("memstore", runMemstore) }
@@ -116,7 +123,8 @@ func runMemstore(args []string) error {
 		// every other program hands over its keys in ONE reused buffer for the lookup-only and delete calls (a caller that decodes keys
 		// into a scratch buffer); writes that may retain the key get their own copy
 		scratchKey := make([]byte, 0, 64)
-		for _, c := range prog {
+		var retained []retainedVal
+		for cj, c := range prog {
 			k, v := kb(c.K), vb(c.V)
 			if ci%2 == 1 && k != nil {
 				switch c.Op {
@@ -146,6 +154,10 @@ func runMemstore(args []string) error {
 				} else {
 					r = valTok(got)
 					pokeReturned(got)
+					// what a Get handed out belongs to the caller: it is looked at again after every later call of the program
+					if len(retained) < 64 {
+						retained = append(retained, retainedVal{got, append([]byte(nil), got...), cj})
+					}
 				}
 			case "Contains":
 				r = fmt.Sprint(ms.Contains(k))
@@ -153,6 +165,11 @@ func runMemstore(args []string) error {
 				r = fmt.Sprint(ms.IsTombstoned(k))
 			default:
 				return fmt.Errorf("unknown op %q", c.Op)
+			}
+			for _, rv := range retained {
+				if rv.at != cj && !bytes.Equal(rv.live, rv.copy) && r != "" && !strings.HasPrefix(r, "changed:") {
+					r = fmt.Sprintf("changed:result of call %d altered by a later call", rv.at)
+				}
 			}
 			tr.emit(M{"t": "call", "op": c.Op, "k": c.K, "v": c.V, "kl": len(k), "vl": len(v), "r": r,
 				"size": ms.Size(), "est": capEst(ms.EstimatedSizeInBytes())})
